@@ -48,6 +48,16 @@ func c32(c *hx.Ctx) {
 		v[len(v)-1] ^= 0x01
 		uni = append(uni, v, base, base[:pl])
 	}
+	// long ids (up to 300 bytes, e.g. identity multihashes of large keys) incl. pairs that only
+	// differ after 64, 128 or 200 bytes: any fixed-size internal buffer shows up as a collision
+	for _, pl := range []int{64, 65, 127, 128, 129, 200} {
+		base := c.RandBytes(pl + 40)
+		v := append([]byte{}, base...)
+		v[pl] ^= 0x55
+		w := append([]byte{}, base...)
+		w[len(w)-1] ^= 0x01
+		uni = append(uni, base, v, w)
+	}
 	pick := func() []byte { return uni[c.Rng.Intn(len(uni))] }
 	nSid := c.N / 2
 	for i := 0; i < nSid; i++ {
@@ -79,6 +89,20 @@ func c32(c *hx.Ctx) {
 		s3 := link_solicit.ComputeSessionID(peer.ID(b), peer.ID(a))
 		if !bytes.Equal(s1, s3) {
 			c.Failf("sid-asymmetric", desc, "ComputeSessionID(a,b) != ComputeSessionID(b,a)")
+		}
+		// direct oracle: different sorted concatenations must give different session ids
+		lo1, hi1 := a, b
+		if bytes.Compare(lo1, hi1) > 0 {
+			lo1, hi1 = hi1, lo1
+		}
+		lo2, hi2 := cc, d
+		if bytes.Compare(lo2, hi2) > 0 {
+			lo2, hi2 = hi2, lo2
+		}
+		cat1 := append(append([]byte{}, lo1...), hi1...)
+		cat2 := append(append([]byte{}, lo2...), hi2...)
+		if eq != bytes.Equal(cat1, cat2) {
+			c.Failf("sid-equality-not-concatenation-equality", desc, "session ids equal=%v but sorted concatenations equal=%v", eq, bytes.Equal(cat1, cat2))
 		}
 		if len(s1) != link_solicit.HashSize {
 			c.Failf("sid-size", desc, "session id has %d bytes", len(s1))
